@@ -72,6 +72,13 @@ def fam_collinear(ctx, which, fr_name):
         c2 = R.affine(A, (t, e1), (s, e2))
         must_raise(ctx, 'get_segment_from_point_list on non-collinear points',
                    lambda: G.get_segment_from_point_list([pt(ctx, a), pt(ctx, b), pt(ctx, c2)]))
+        # the same non-collinear point set listed in other orders and with repeated entries
+        m = R.affine(A, (F(5, 2), e1))
+        for nm, lst in (('off-line point first', [c2, a, b]), ('off-line point second', [a, c2, b]), ('off-line point after a repeated point', [a, b, b, c2]),
+                        ('off-line point after a returning step', [a, b, a, c2]), ('off-line point after a further collinear point', [a, b, m, c2]),
+                        ('off-line point repeated', [a, b, c2, c2]), ('off-line point after two repeats', [a, m, b, b, b, c2])):
+            must_raise(ctx, 'get_segment_from_point_list on non-collinear points (%s)' % nm,
+                       lambda: G.get_segment_from_point_list([pt(ctx, x) for x in lst]))
 
 
 def fam_polygon(ctx, which, fr_name):
